@@ -74,6 +74,12 @@ theorem C02_parse_tree (s : Surf) (h : s.wf = true) : parse (atoks s) = some (er
     precedences (`**` tighter than a unary minus on its left, unary minus tighter than `* /`, `&` looser than `+`) -/
 theorem C02_emit (e : Expr) (h : e.emittable) : pyParse (emit e) = some (toPy e) := pyParse_emit e h
 
+/-- every function name with a dedicated emitter in the LIVE `FunctionNode` is one `emitE` models (pi, true, false,
+    array, arrayrow) or one of the five address-layer emitters documented as out of scope; every other function is
+    emitted by the generic branch as the plain call `name(args…)` that `C02_emit` speaks about.  A new `func_*`
+    handler (a function whose emission changes shape) breaks this theorem. -/
+theorem C02_handlers : ∀ h ∈ Gen.funcHandlers, h ∈ emitHandlers ∨ h ∈ contextHandlers := by decide
+
 /-- what was wrong before the `fix:` commit: `=-2^2` is the tree (−2)^2, the code as pinned emitted `-2 ** 2`,
     which Python reads as −(2^2) -/
 theorem emit_current_counterexample :
